@@ -203,7 +203,14 @@ def handleSize (case : Nat) (j : Json) : IO Unit := do
 def handle (j : Json) : IO Unit := do
   let case := jnat (jget j "case")
   let kind := jstr (jget j "kind")
-  if kind == "chain" then handleChain case j
+  if kind == "key" then
+    -- one client address, three TCP connections: one bucket key (`clientKey` of the fixed variant is the address alone)
+    let keys := jstrList (jget (jget j "impl") "keys")
+    let host := jstr (jget j "host")
+    let same := keys.all (fun k => k == keys.headD "")
+    emit case (keys.all (fun k => (k, 0) == clientKey activeKey ⟨host, 40001⟩)) same "key" (if same then "" else "rate-limit-bucket-per-connection")
+      (if same then "" else s!"client address {host} on three source ports gets bucket keys {keys}")
+  else if kind == "chain" then handleChain case j
   else if kind == "rate" then handleRate case j
   else if kind == "size" then handleSize case j
   else emit case false true "unknown-kind" "" kind
